@@ -122,6 +122,15 @@ m("player2-keyerror", "chartparse/metadata.py",
 m("sp-index-error", "chartparse/instrument.py",
   "        if proximal_star_power_event_index >= len(star_power_events):\n            raise ValueError(",
   "        if proximal_star_power_event_index > len(star_power_events):\n            raise ValueError(", [], ["C18", "C05"])  # unreachable guard: neutral
+# ---- C16
+m("nps-half-open", "chartparse/chart.py", "return start_time <= note.timestamp <= end_time", "return start_time <= note.timestamp < end_time", ["C16"])
+m("nps-default-end-last-start", "chartparse/chart.py",
+  "                else track.last_note_end_timestamp\n            )\n        # Case: Timestamp",
+  "                else track.note_events[-1].timestamp\n            )\n        # Case: Timestamp", ["C16"])
+m("nps-zero-division", "chartparse/chart.py", "if interval_duration_seconds <= 0:", "if interval_duration_seconds < 0:", ["C16"])
+m("nps-counts-lanes", "chartparse/chart.py",
+  "num_events_to_consider = sum(1 for e in events if is_event_eligible(e))",
+  "num_events_to_consider = sum(max(1, sum(e.note.value)) if len(events) > 6 else 1 for e in events if is_event_eligible(e))", ["C16"])
 # ---- C08
 m("bpm-sum-parts", "chartparse/sync.py",
   "bpm = int(data.raw_bpm) / 1000",
